@@ -369,6 +369,8 @@ class Hist:
                     shards = self.emit_layout()
                     self.do_remember(op[1], op[2], shards)
                 elif t == "W":
+                    pre = self.layout()
+                    in_mem = set(k for s in pre for k in s["mem"])      # the memtable the window's flush rotates
                     self.eng.cmd("!park fw_published")
                     first = self.k + 1
                     for i in range(op[3]):
@@ -377,7 +379,7 @@ class Hist:
                     self.eng.cmd("!wal_drained 3000")
                     if not w.get("parked"):
                         self.notes.append("park point fw_published not reached")
-                    shards = self.emit_layout(window_keys=set(range(first, self.k + 1)) if w.get("parked") else ())
+                    shards = self.emit_layout(window_keys=(in_mem | set(range(first, self.k + 1))) if w.get("parked") else ())
                     self.do_remember(op[1], op[2], shards)
                     self.eng.cmd("!release fw_published")
                     self.quiesce()
@@ -430,6 +432,7 @@ def diffs(c, impl, model):
     if model is None:
         return out
     mo, _ = model_parts(model)
+    mo = [x for x in mo if x != ""]
     io = impl["obs"].split(" | ") if impl["obs"] else []
     if len(mo) != len(io):
         return out + [f"model produced {len(mo)} observations, implementation {len(io)}: {model[:300]}"]
